@@ -1,7 +1,231 @@
 import TenpyModel.Core.Pipe
+import TenpyModel.C06.ChargeProofs
+import TenpyModel.C06.ListProofs
+import TenpyModel.C06.LegProofs
+import TenpyModel.C06.LegOpsProofs
+import TenpyModel.C06.PipeProofs
+/-!
+# C06 — "Leg fusion is a lossless, consistently ordered bijection": property theorems
+
+All theorems are about the executable model `TenpyModel.Core.{Charge,Leg,Pipe}` (checked against
+`tenpy/linalg/charges.py` by the differential harness `harness/C06.py`) and hold for **all** legs /
+pipes satisfying the class invariant `Leg.WF` (shape of `slices`, valid charges, `mod ≥ 1`,
+`qconj = ±1`), or only its shape part `Leg.Shape` where that suffices.
+
+The charge attached to flat index `i` of a leg is `l.toQflat[i]`; its physical charge is
+`l.physQflat[i] = make_valid(qconj * toQflat[i])`.
+-/
 open TenpyModel.Core
 
-theorem C06_mv1_idem (m : Nat) (x : Int) : mv1 m (mv1 m x) = mv1 m x := by
-  unfold mv1; split
-  · rfl
-  · exact Int.emod_emod_of_dvd x (Int.dvd_refl _)
+/-! ## 0. example data (non-vacuity) -/
+
+namespace TenpyModel.C06
+
+/-- two charges (U(1) × Z₃), five blocks, a duplicate sector pair that is adjacent (`[1,0]`, `[1,0]`),
+a third copy further right, an empty block, unsorted, unbunched, direction −1 -/
+def exLeg : Leg :=
+  { mods := [1, 3], slices := [0, 2, 3, 3, 5, 6],
+    charges := [[1, 0], [1, 0], [-1, 2], [1, 0], [0, 1]], qconj := -1, sorted := false, bunched := false }
+
+/-- a second, smaller leg with direction +1 (sorted but not bunched) -/
+def exLeg2 : Leg :=
+  { mods := [1, 3], slices := [0, 1, 3, 4], charges := [[-2, 1], [-2, 1], [0, 2]], qconj := 1,
+    sorted := true, bunched := false }
+
+/-- three blocks, the duplicate sector `[1,0]` not adjacent, unsorted, direction −1 -/
+def exLeg3 : Leg :=
+  { mods := [1, 3], slices := [0, 1, 3, 4], charges := [[1, 0], [0, 2], [1, 0]], qconj := -1,
+    sorted := false, bunched := false }
+
+/-- a pipe of two legs (9 block combinations, several with equal fused charge), sorted and bunched -/
+def exPipe : Pipe := Pipe.init [exLeg3, exLeg2] 1 true true
+/-- the same, outgoing direction −1, neither sorted nor bunched -/
+def exPipeN : Pipe := Pipe.init [exLeg3, exLeg2] (-1) false false
+/-- single-block legs: the special branch of `LegPipe.__init__` -/
+def exPipe1 : Pipe := Pipe.init [Leg.fromTrivial 2 [1, 3] 1, Leg.fromTrivial 3 [1, 3] (-1)] 1 true true
+
+example : exLeg.WF := by decide
+example : exLeg3.WF := by decide
+example : exLeg.sane = true := by decide
+example : exLeg2.WF := by decide
+example : exLeg2.sane = true := by decide
+
+end TenpyModel.C06
+open TenpyModel.C06
+
+/-! ## 1. charge arithmetic -/
+
+theorem C06_mv1_idem (m : Nat) (x : Int) : mv1 m (mv1 m x) = mv1 m x := mv1_idem m x
+
+/-- `make_valid` is idempotent -/
+theorem C06_makeValid_idem (mods : List Nat) (q : Charge) :
+    makeValid mods (makeValid mods q) = makeValid mods q := makeValid_idem mods q
+
+/-- reducing a summand first does not change the reduced sum (charges add modulo `mod`) -/
+theorem C06_makeValid_add (mods : List Nat) (a b : Charge) :
+    makeValid mods (cadd a (makeValid mods b)) = makeValid mods (cadd a b) := makeValid_add mods a b
+
+/-- negation law: negating a reduced charge and reducing = reducing the negation -/
+theorem C06_makeValid_neg (mods : List Nat) (a : Charge) :
+    makeValid mods (cneg (makeValid mods a)) = makeValid mods (cneg a) := makeValid_neg mods a
+
+/-- the same for multiplication by a direction `±1` (any integer) -/
+theorem C06_makeValid_scale (mods : List Nat) (s : Int) (a : Charge) :
+    makeValid mods (cscale s (makeValid mods a)) = makeValid mods (cscale s a) := makeValid_scale mods s a
+
+/-- `make_valid` produces valid charges, and valid charges are fixed points -/
+theorem C06_checkValid_makeValid (mods : List Nat) (hm : ∀ k ∈ mods, 1 ≤ k) (q : Charge)
+    (hq : q.length = mods.length) :
+    checkValid mods (makeValid mods q) = true ∧
+      (checkValid mods q = true → makeValid mods q = q) :=
+  ⟨checkValid_makeValid mods hm q hq, makeValid_of_checkValid mods q⟩
+
+example : makeValid [1, 3] (cadd [5, 2] (makeValid [1, 3] [-7, -4])) = [-2, 1] := by decide
+example : checkValid [1, 3] (makeValid [1, 3] [-7, -4]) = true := by decide
+example : makeValid [1, 3] (cneg (makeValid [1, 3] [4, 5])) = [-4, 1] := by decide
+
+/-! ## 2. operations on a single leg -/
+
+/-- **bunch** keeps the charge of every flat index; the result is bunched (no two neighbouring
+blocks with equal charge), its returned index list is what `_find_row_differences` gives. -/
+theorem C06_bunch_qflat (l : Leg) (h : l.WF) (hf : l.sane = true) :
+    l.bunch.2.toQflat = l.toQflat ∧ l.bunch.2.isBunched = true ∧ l.bunch.2.indLen = l.indLen := by
+  have hfl := (h.sane_iff.1 hf)
+  refine ⟨Leg.bunch_toQflat h.shape h.cl0, Leg.bunch_isBunched h.cl0 hfl.2, ?_⟩
+  have h' := Leg.bunch_WF h
+  rw [← h'.shape.toQflat_length, Leg.bunch_toQflat h.shape h.cl0, h.shape.toQflat_length]
+
+/-- `bunch` preserves the class invariant and keeps the flags truthful (`test_sanity` passes) -/
+theorem C06_bunch_sane (l : Leg) (h : l.WF) (hf : l.sane = true) :
+    l.bunch.2.WF ∧ l.bunch.2.sane = true :=
+  ⟨Leg.bunch_WF h, (Leg.bunch_WF h).sane_iff.2 (Leg.bunch_flags h (h.sane_iff.1 hf))⟩
+
+example : exLeg.bunch.2.toQflat = exLeg.toQflat ∧ exLeg.bunch.2.blockNumber = 4 := by decide
+
+/-- **flip_charges_qconj** leaves the physical charge of every index (and every block) unchanged,
+and does not touch the slices. -/
+theorem C06_flip_phys (l : Leg) :
+    l.flipChargesQconj.physQflat = l.physQflat ∧ l.flipChargesQconj.physCharges = l.physCharges ∧
+      l.flipChargesQconj.slices = l.slices ∧ l.flipChargesQconj.qconj = -l.qconj :=
+  ⟨Leg.flip_physQflat l, Leg.flip_physCharges l, rfl, rfl⟩
+
+theorem C06_flip_sane (l : Leg) (h : l.WF) (hf : l.sane = true) :
+    l.flipChargesQconj.WF ∧ l.flipChargesQconj.sane = true :=
+  ⟨Leg.flip_WF h, (Leg.flip_WF h).sane_iff.2 (Leg.flip_flags h (h.sane_iff.1 hf))⟩
+
+example : exLeg.flipChargesQconj.physQflat = exLeg.physQflat ∧
+    exLeg.flipChargesQconj.charges ≠ exLeg.charges := by decide
+
+/-- **conj**: a leg is contractible with its conjugate, `conj` is an involution, keeps the charge
+entries and negates the direction. -/
+theorem C06_conj_contractible (l : Leg) :
+    l.testContractible l.conj = true ∧ l.conj.conj = l ∧ l.conj.toQflat = l.toQflat ∧
+      l.conj.qconj = -l.qconj :=
+  ⟨Leg.testContractible_conj l, Leg.conj_conj l, rfl, rfl⟩
+
+theorem C06_conj_sane (l : Leg) (h : l.WF) (hf : l.sane = true) : l.conj.WF ∧ l.conj.sane = true :=
+  ⟨Leg.conj_WF h, (Leg.conj_WF h).sane_iff.2 (Leg.conj_flags (h.sane_iff.1 hf))⟩
+
+example : exLeg.testContractible exLeg.conj = true ∧ exLeg.testContractible exLeg = false := by decide
+
+/-- **sort** keeps the charge of every index: entry `k` of the sorted leg carries the charge of
+entry `perm_flat[k]` of the original one, where `perm_flat = perm_flat_from_perm_qind(perm_qind)`
+is computed from the *old* slices; `perm_qind` is a permutation of the block numbers; the result
+is sorted (and bunched when asked for); the total length is unchanged. -/
+theorem C06_sort_qflat (l : Leg) (h : l.WF) (hf : l.sane = true) (b : Bool) :
+    (l.sort b).2.toQflat = (l.permFlatFromPermQind (l.sort b).1).map (l.toQflat.getD · []) ∧
+      (l.sort b).1.Perm (List.range l.blockNumber) ∧
+      (l.sort b).2.isSorted = true ∧ (b = true → (l.sort b).2.isBunched = true) := by
+  have hfl := h.sane_iff.1 hf
+  exact ⟨Leg.sort_toQflat h.shape h.cl0 b, Leg.sort_perm l b,
+    (Leg.sort_isSorted h hfl b).1, (Leg.sort_isSorted h hfl b).2⟩
+
+theorem C06_sort_sane (l : Leg) (h : l.WF) (hf : l.sane = true) (b : Bool) :
+    (l.sort b).2.WF ∧ (l.sort b).2.sane = true :=
+  ⟨Leg.sort_WF h b, (Leg.sort_WF h b).sane_iff.2 (Leg.sort_flags h (h.sane_iff.1 hf) b)⟩
+
+/-- the flat permutation reported by `sort` is a permutation of all flat indices -/
+theorem C06_permFlat_perm (l : Leg) (h : l.Shape) (p : List Nat) (hp : p.Perm (List.range l.blockNumber)) :
+    (l.permFlatFromPermQind p).Perm (List.range l.indLen) := Leg.permFlat_perm h p hp
+
+example : (exLeg.sort true).1 = [0, 1, 3, 4, 2] ∧
+    (exLeg.sort true).2.toQflat =
+      (exLeg.permFlatFromPermQind (exLeg.sort true).1).map (exLeg.toQflat.getD · []) ∧
+    (exLeg.sort true).2.blockNumber = 3 := by decide
+
+/-- **project** keeps exactly the indices selected by the mask, with their charges -/
+theorem C06_project_qflat (l : Leg) (h : l.WF) (mask : List Bool) (hm : mask.length = l.indLen) :
+    (l.project mask).2.2.toQflat = ((l.toQflat.zip mask).filter (·.2)).map (·.1) ∧
+      (l.project mask).2.2.indLen = mask.count true := by
+  have e := Leg.project_toQflat l mask h.shape hm
+  refine ⟨e, ?_⟩
+  rw [← (Leg.project_shape l mask).toQflat_length, e, List.length_map]
+  have hl : l.toQflat.length = mask.length := by rw [h.shape.toQflat_length, hm]
+  exact Leg.length_filter_zip_snd _ _ hl
+
+theorem C06_project_sane (l : Leg) (h : l.WF) (hf : l.sane = true) (mask : List Bool) :
+    (l.project mask).2.2.WF ∧ (l.project mask).2.2.sane = true :=
+  ⟨Leg.project_WF l mask h, (Leg.project_WF l mask h).sane_iff.2 (Leg.project_flags l mask h (h.sane_iff.1 hf))⟩
+
+example : (exLeg.project [true, false, false, true, true, false]).2.2.toQflat = [[1, 0], [1, 0], [1, 0]] ∧
+    (exLeg.project [true, false, false, true, true, false]).1 = [0, -1, -1, 1, -1] := by decide
+
+/-- **extend** keeps the charges of the old indices and appends those of `extra` (negated and
+reduced when the directions differ, so that the *physical* charges are simply concatenated) -/
+theorem C06_extend_qflat (l e : Leg) (h : l.WF) (he : e.WF) (hm : e.mods = l.mods) :
+    (l.extend e).toQflat = l.toQflat ++
+        (if l.qconj = e.qconj then e.toQflat else e.toQflat.map (fun c => makeValid l.mods (cneg c))) ∧
+      (l.extend e).physQflat = l.physQflat ++ e.physQflat ∧
+      (l.extend e).indLen = l.indLen + e.indLen :=
+  ⟨Leg.extend_toQflat h.shape he.shape, Leg.extend_physQflat h.shape he.shape hm h.qconj he.qconj,
+   Leg.extend_indLen h.shape he.shape⟩
+
+theorem C06_extend_sane (l e : Leg) (h : l.WF) (he : e.WF) (hm : e.mods = l.mods) :
+    (l.extend e).WF ∧ (l.extend e).sane = true :=
+  ⟨Leg.extend_WF h he hm, (Leg.extend_WF h he hm).sane_iff.2 (Leg.extend_flags h he hm)⟩
+
+example : (exLeg.extend exLeg2).physQflat = exLeg.physQflat ++ exLeg2.physQflat ∧
+    (exLeg.extend exLeg2).toQflat ≠ exLeg.toQflat ++ exLeg2.toQflat := by decide
+
+/-! ## 3. pipes -/
+
+/-- **q_map columns**: the incoming-qindex columns `q_map[:, 3:]` are a permutation of the full
+C-ordered grid of block combinations — every combination of incoming blocks occurs exactly once.
+(Any number of legs, both branches of `__init__`, sort/bunch on or off.) -/
+theorem C06_qmap_perm (legs : List Leg) (qconj : Int) (sort bunch : Bool) :
+    ((Pipe.init legs qconj sort bunch).qMap.map (·.drop 3)).Perm
+      (gridC (Pipe.init legs qconj sort bunch).subqshape) := by
+  unfold Pipe.subqshape
+  rw [Pipe.init_legs]
+  exact Pipe.qmap_perm legs qconj sort bunch
+
+example : exPipe.qMap.length = 9 ∧ exPipe.leg.blockNumber = 4 ∧ exPipe.perm = some [1, 2, 7, 5, 6, 0, 3, 4, 8] := by
+  decide
+
+/-- **fusion rule**: for every row `j` of `q_map`, the charge of the outgoing block `I = q_map[j,2]`
+is `make_valid(qconj * Σ_l legs[l].qconj * legs[l].charges[q_map[j, 3+l]])`. -/
+theorem C06_fusion_rule (legs : List Leg) (qconj : Int) (sort bunch : Bool) :
+    let p := Pipe.init legs qconj sort bunch
+    p.legs = legs ∧ p.leg.qconj = qconj ∧
+    ∀ j, j < p.qMap.length →
+      p.leg.charges.getD ((p.qMap.getD j []).getD 2 0) [] =
+        Pipe.fuse p.leg.mods legs qconj ((p.qMap.getD j []).drop 3) := by
+  intro p
+  refine ⟨Pipe.init_legs legs qconj sort bunch, (Pipe.init_mods_qconj legs qconj sort bunch).2, ?_⟩
+  intro j hj
+  show (Pipe.init legs qconj sort bunch).leg.charges.getD _ [] = Pipe.fuse (Pipe.init legs qconj sort bunch).leg.mods _ _ _
+  rw [(Pipe.init_mods_qconj legs qconj sort bunch).1]
+  exact Pipe.fusion_rule legs qconj sort bunch j hj
+
+example : exPipe.qMap.getD 6 [] = [2, 6, 2, 1, 1] ∧ exPipe.leg.charges.getD 2 [] = [-2, 2] ∧
+    Pipe.fuse [1, 3] [exLeg3, exLeg2] 1 [1, 1] = [-2, 2] := by decide
+
+/-- **q_map_slices** partitions the rows of `q_map` by outgoing block `I` (non-empty, consecutive
+row ranges `[s[I], s[I+1])`, all rows in range `I` have `q_map[j,2] = I`), and inside a block the
+sub-slices `[q_map[j,0], q_map[j,1])` tile `[0, block size)`: the first starts at 0, consecutive
+ones are adjacent, the last ends at the block size. -/
+theorem C06_qmap_slices (legs : List Leg) (qconj : Int) (sort bunch : Bool) :
+    Pipe.SlicesOK (Pipe.init legs qconj sort bunch) := Pipe.slicesOK legs qconj sort bunch
+
+example : exPipe.qMapSlices = [0, 1, 5, 7, 9] ∧ exPipeN.qMapSlices = List.range 10 ∧
+    exPipe1.qMapSlices = [0, 1] := by decide
